@@ -272,11 +272,10 @@ def valid_plans(gen, rng, maxlen, budget, branch, want, exhaustive=False):
     ser = SerProblem(problem)
     s0 = ser.read_state(sim.get_initial_state())
     good = sorted(set(good), key=lambda s: (-len(s), s))
-    if not exhaustive and len(good) > want:
-        # prefer long plans, keep a little variety
-        head = good[:want * 3]
-        rng.shuffle(head)
-        good = sorted(head[:want], key=lambda s: (-len(s), s))
+    if not exhaustive and len(good) > want * 6:
+        # a random sample of candidates (the caller keeps the `want` most interesting ones)
+        rng.shuffle(good)
+        good = sorted(good[:want * 6], key=lambda s: (-len(s), s))
     return ser, s0, insts, good, rewritten
 
 
@@ -302,6 +301,8 @@ def convert(problem, insts, plan):
         pop = sp.convert_to(PlanKind.PARTIAL_ORDER_PLAN, problem)
     except up.exceptions.UPUsageError as e:
         return {"raised": "UPUsageError", "msg": str(e)[:120], "edges": [], "lins": [], "capped": False}
+    except Exception as e:  # noqa  (anything else is a failure of the conversion itself)
+        return {"raised": type(e).__name__, "msg": str(e)[:120], "edges": [], "lins": [], "capped": False}
     adj = pop.get_adjacency_list
     edges = sorted((pos[id(x)], pos[id(y)]) for x, ys in adj.items() for y in ys)
     lins = []
@@ -370,9 +371,9 @@ def run(ctx):
     t_proofs = time.time()
     rng = ctx.rng
     if ctx.quick:
-        n_noinv, n_inv, maxlen, want, budget, branch = 50, 30, 4, 4, 160, 3
+        n_noinv, n_inv, maxlen, want, budget, branch = 60, 40, 4, 4, 200, 3
     else:
-        n_noinv, n_inv, maxlen, want, budget, branch = 700, 400, 5, 6, 500, 3
+        n_noinv, n_inv, maxlen, want, budget, branch = 1200, 800, 5, 6, 600, 3
     sources = [("hand", hp, None) for hp in hand_corpus()]
     noinv = dict(invariants=False, bounded=False, max_actions=3)
     sources += [("noinv", None, dict(noinv)) for _ in range(n_noinv)]
@@ -382,16 +383,25 @@ def run(ctx):
     sources += [("inv", None, dict(max_actions=3, obj_fluents=False)) for _ in range(n_inv)]
 
     pre, cases, owners = [], [], []
-    stats = {g: {"problems": 0, "skipped": 0, "no_plan": 0, "goal_rewritten": 0, "plans": 0, "raised_nested": 0,
+    stats = {g: {"problems": 0, "retries": 0, "skipped": 0, "no_plan": 0, "goal_rewritten": 0, "plans": 0, "raised_nested": 0,
                  "converted": 0, "linearisations": 0, "capped": 0, "plans_with_several_linearisations": 0,
                  "edges": 0, "len_hist": {}}
              for g in ("hand", "noinv", "inv")}
     feat = {"cond": 0, "forall": 0, "incdec": 0, "quantified_pre": 0}
     pi = 0
     for group, hp, knobs in sources:
-        gen = hp if hp is not None else GenProblem(rng, **knobs)
+        gen, res = hp, None
+        for attempt in range(1 if hp is not None else 4):
+            # many random problems have fewer than two executable instances: retry a few times (counted)
+            if hp is None:
+                gen = GenProblem(rng, **knobs)
+                if len(gen.ground_instances()) < 2:
+                    continue
+            res = valid_plans(gen, rng, maxlen if hp is None else 4, budget, branch, want, exhaustive=hp is not None)
+            if res is not None and res[3]:
+                break
+            stats[group]["retries"] += 1
         st = stats[group]
-        res = valid_plans(gen, rng, maxlen if hp is None else 4, budget, branch, want, exhaustive=hp is not None)
         if res is None:
             st["skipped"] += 1
             continue
@@ -408,8 +418,14 @@ def run(ctx):
             feat["forall"] += any(e.is_forall() for e in a.effects)
             feat["incdec"] += any(e.is_increase() or e.is_decrease() for e in a.effects)
             feat["quantified_pre"] += any("forall" in str(c).lower() or "exists" in str(c).lower() for c in a.preconditions)
-        for plan in plans:
-            obs = convert(problem, insts, plan)
+        converted = [(plan, convert(problem, insts, plan)) for plan in plans]
+        if hp is None and len(converted) > want:
+            # keep the plans whose partial order has the most linearisations (and one that raised, if any)
+            converted.sort(key=lambda po: (-min(len(po[1]["lins"]), 8), -len(po[0]), po[0]))
+            keep = converted[:want]
+            raised = [po for po in converted[want:] if po[1]["raised"]]
+            converted = keep + raised[:1]
+        for plan, obs in converted:
             st["plans"] += 1
             st["len_hist"][len(plan)] = st["len_hist"].get(len(plan), 0) + 1
             if obs["raised"]:
@@ -447,6 +463,10 @@ def run(ctx):
                    "problem_text": str(gen.problem), "names": ser.names.table(),
                    "theorem_or_corr": "corr:C27:deorder / oracle valid_plan false"}
         hyp_inv = bool(bits & 16)
+        if obs["raised"] and obs["raised"] != "UPUsageError":
+            ctx.fail("oracle", "convert_to(PARTIAL_ORDER_PLAN) raised %s on a valid plan" % obs["raised"],
+                     tags + ["raises", obs["raised"]], payload, True)
+            continue
         if bits & 256:
             ctx.fail("harness", "generated plan has duplicate instances", tags + ["duplicate-instances"], payload, False)
             continue
@@ -489,6 +509,11 @@ def run(ctx):
 
     if not ok_proofs:
         ctx.proof_broken()
+    by_group = {}
+    for f in ctx.failures:
+        g = [x for x in f.tags if x.startswith("group-")]
+        key = (g[0] if g else "other") + ":" + f.kind
+        by_group[key] = by_group.get(key, 0) + 1
     samples = []
     for o in owners[:3]:
         samples.append({"group": o["group"], "label": o["label"], "plan": [inst_json(o["insts"][i]) for i in o["plan"]],
@@ -501,6 +526,7 @@ def run(ctx):
         "samples": samples,
         "distribution": {"groups": stats, "action_features": feat, "lin_cap": LIN_CAP, "max_plan_length": maxlen},
         "reported_separately": sep,
+        "failures_by_group": by_group,
         "phase_seconds": {"proofs": round(t_proofs - t_start, 1), "search_and_conversion": round(t_gen - t_proofs, 1),
                           "coq_evaluation": round(t_coq - t_gen, 1)},
         "traces_validated_against_impl": len(cases),
